@@ -321,6 +321,15 @@ fn run_case(g: &mut Gen, w: &mut World, cfg: &Cfg) -> Outcome {
                         undecided += 1;
                     }
                     accepted += 1;
+                    if nr.ts == cur.ms {
+                        g.label("accepted: timestamp equal to the recorded one");
+                    }
+                    if nr.ts == MAX_MS {
+                        g.label("accepted: last timestamp the minute clock can represent");
+                    }
+                    if after.minute > cur.minute && after.epoch != cur.epoch {
+                        g.label("accepted: minute boundary and epoch change in one round");
+                    }
                     cur = after;
                 } else {
                     if after != cur {
@@ -462,6 +471,6 @@ pub fn check() -> Check {
     )
     .assume("accepted exactly when: timestamp >= recorded timestamp and representable by the i32 minute clock, round > current round, and the leader history is consistent (gap count = progress - 1, validator indexes in range); transactions whose only flaw is the leader history may go either way (the property does not speak about them) but their consequences are checked")
     .assume("latest protocol version only (second precision available); genesis times >= 1 h after 1970 so that minute rounding of negative instants cannot matter")
-    .part(Part::new("histories", 3_000, 150_000, 900, case))
+    .part(Part::new("histories", 5_000, 250_000, 900, case))
     .min_nontrivial_pct(10.0)
 }
